@@ -25,7 +25,7 @@ func init() {
 		Directed:   c08Directed,
 		Run:        c08Run,
 		MustHit:    []string{"place=R", "place=A", "place=RA", "encrypted", "compressed", "layout_comments", "layout_cdata", "layout_charrefs", "n>=2", "inclusive_c14n", "sp_restart", "idp_key_rollover"},
-		RandomRuns: map[string]int{"quick": 1500, "thorough": 80000},
+		RandomRuns: map[string]int{"quick": 6000, "thorough": 80000},
 		Assumptions: []string{
 			"only layouts for which the stub's own goxmldsig self-check passes are sent (canonicalisation the validator supports); a failing self-check on a calibrated layout is a harness error",
 			"one Subject / AttributeStatement / AuthnStatement per assertion; documents < 800 elements",
